@@ -589,7 +589,10 @@ def run(ctx):
     if nt is not None:
         ctx.saw_func(nt)
         rr = [r for r in walk_no_nested(nt.node) if isinstance(r, ast.Return)]
-        okk = len(rr) == 1 and src(rr[0].value).replace(" ", "").startswith("mean+sigma*ducktape(")
+        v_ = rr[0].value if len(rr) == 1 else None
+        okk = isinstance(v_, ast.BinOp) and isinstance(v_.op, ast.Add) and any(src(x_) == "mean" for x_ in (v_.left, v_.right)) and \
+            any(isinstance(x_, ast.BinOp) and isinstance(x_.op, ast.Mult) and {src(x_.left).split("(")[0], src(x_.right).split("(")[0]} == {"sigma", "ducktape"}
+                for x_ in (v_.left, v_.right))
         ctx.check("R30.2", f"{nm.relpath}::NormalTransform is mean + sigma*xi", okk, src(rr[0].value) if rr else None, nt)
     if lt is not None:
         ctx.saw_func(lt)
